@@ -253,13 +253,45 @@ def h_fp(ctx, n, dur_h, box=((0.0, 0.0), (1.0, 8.0))):
         ctx.fp_unreachable(c < 0, "negative-storage rejection although no job deletes data", list(box))
 
 
+def h_fixed_edit(ctx, which, n=2):
+    """a user-fixed instance count stays honoured exactly (or the model raises) when it is edited on a live system"""
+    from efootprint.abstract_modeling_classes.source_objects import SourceValue
+    from efootprint.constants.units import u
+    if which == "server":
+        spec = M.T5(n, type1="on-premise", type2="serverless", fixed1=50)
+        target, slot = "srv", "srv.fixed_nb_of_instances"
+    else:
+        spec = M.T1(n)
+        spec["storages"]["st"]["fixed_nb_of_instances"] = 50
+        target, slot = "st", "st.fixed_nb_of_instances"
+    sym = traffic_syms(spec, nice=(1, 50))
+    sym[slot] = dict(lo=0, lo_strict=True, hi=10 ** 6, nice=(10, 60))
+    env = M.Env(ctx, symbolic=sym)
+    objs = M.build(spec, env)
+    V.observe_system(ctx, objs)
+    new = env.fresh("new_fixed", lo=0, lo_strict=True, hi=10 ** 6, nice=(10, 60))
+    ctx.assume(new != env.get(slot, None))
+    o = objs[target]
+    raw_peak = _max([c for c in _cells(o.raw_nb_of_instances).values()])
+    try:
+        o.fixed_nb_of_instances = SourceValue(new * u.dimensionless)
+    except ValueError:
+        ctx.holds(ceil_(raw_peak) > new, f"{which}: edited fixed count rejected only when below ceil(peak need)")
+        raise
+    for t, c in _cells(o.nb_of_instances).items():
+        ctx.eq(c, new, f"{which}: edited fixed instance count honoured exactly")
+    ctx.le(ceil_(raw_peak), new, f"{which}: accepted edited fixed count covers ceil(peak need)")
+
+
+HARNESSES["fixed_edit"] = h_fixed_edit
 HARNESSES["fp"] = h_fp
 _plan0 = plan
 
 
 def plan(tier, seed):  # noqa: F811
     p = _plan0(tier, seed)
-    p += [("fp", dict(n=3, dur_h=1)), ("fp", dict(n=3, dur_h=2))]
+    p += [("fp", dict(n=3, dur_h=1)), ("fp", dict(n=3, dur_h=2)), ("fixed_edit", dict(which="server")),
+          ("fixed_edit", dict(which="storage"))]
     if tier == "thorough":
         p += [("fp", dict(n=4, dur_h=1)), ("fp", dict(n=4, dur_h=2)), ("fp", dict(n=4, dur_h=3))]
     return p
